@@ -29,18 +29,26 @@ PROPS = {
     },
     "C13": {
         "lean": ["SioVerif.Props.C13"],
-        "components": ["batcher"],
-        "facts": [],
+        "components": ["batcher", "timed:TestLimits"],
+        "facts": ["eioPollingBodyLimited", "eioWsServerReadLimitSet", "eioWsClientReadLimitLifted"],
+        "timeout": {"quick": 1200, "thorough": 3000},
         "rule": "batcher: exhaustively every vector of <=4 (thorough: <=6) data sizes from {0,1,2,4,7,12,20} x every maxPayload 1..40, plus random "
-                "longer vectors with binary packets, other transports and maxPayload 0. Non-trivial = more than one batch sent; distinct by request line.",
-        "trusted_base": EXT,
-        "assumptions": ["the inbound-limit half of C13 (per-transport acceptance) is covered by the transport rig, see DESIGN.md"],
+                "longer vectors with binary packets, other transports and maxPayload 0. Limits rig: real Engine.IO server on the in-memory network under virtual time, "
+                "MaxBufferSize in {100, 40000, default 1e6, disabled}, one message of wire size limit-2..limit+2, limit+1000, 2, limit/2, 32767, 32768, 32769 (disabled: up to "
+                "2.5 MB), inbound over {polling POST with Content-Length (real client), hand-made POST with chunked body, WebSocket (real client)} and outbound (within the "
+                "announced maxPayload) over {polling, WebSocket}; predicate: within the limit -> delivered once, intact; above -> not delivered and the connection closed; the "
+                "handshake announces the configured limit. Non-trivial = more than one batch sent / every limits scenario; distinct by request line / description.",
+        "trusted_base": EXT + ["go1.26.8 testing/synctest", "nhooyr.io/websocket SetReadLimit semantics and net/http MaxBytesReader semantics are parameters of the limits model, compared with the real stack at every boundary size"],
+        "assumptions": ["message size = size on the wire (POST body bytes, WebSocket message bytes); WebTransport limits are covered at the frame codec only (C11 wt_alloc_bounded)",
+                        "'never buffers more than limit+1 bytes' is a statement about the model (MaxBytesReader / SetReadLimit); the rig observes acceptance and closing, not memory"],
         "level_text": "Lean 4 theorems over the batching loop of the Engine.IO client: for every vector of packet sizes and every maxPayload the batches "
                       "concatenate to the input (nothing dropped, duplicated, reordered), none is empty, and a batch of several packets never exceeds "
-                      "maxPayload; the size function is proved equal to the real wire length of the payload codec. The model is compared with the real "
-                      "routine exhaustively on small vectors.",
-        "level_note": "Trusted: Lean kernel, harness. The accumulator-form model is tied to the Go index loop by exhaustive correspondence, not by proof.",
-        "technique": "Lean 4 proof (loop invariant) + exhaustive differential correspondence",
+                      "maxPayload; the size function is proved equal to the real wire length of the payload codec. Over the decision model of the server's two inbound paths, "
+                      "for every limit, declaration (Content-Length, truthful or not, or none) and size: nothing larger than the limit is accepted and at most limit+1 bytes are "
+                      "held; everything within the limit is accepted; with the limit disabled everything is. That the limit is installed on each path (MaxBytesReader, SetReadLimit "
+                      "in both branches, client read limit lifted) is read from the source. Both models are compared with the real routines / the real server.",
+        "level_note": "Trusted: Lean kernel, translator (three structural facts), synctest, harness. The accumulator-form batcher model is tied to the Go index loop by exhaustive correspondence, not by proof.",
+        "technique": "Lean 4 proof (loop invariant; decision model of the inbound limits) + exhaustive differential correspondence + limits rig at every boundary size",
     },
 }
 PROPS["C18"] = {
